@@ -178,6 +178,12 @@ def gen_C17(chk):
         add_shell(chk, "CLI", ["aeon", gen.hx(net), gen.hx(bad + "\n"), "summary", "-"], tag="cli-invalid")
     add_shell(chk, "CLI", ["aeon", gen.hx("this is not a model ->"), gen.hx("a\n"), "summary", "-"], tag="cli-badmodel")
     add_shell(chk, "CLI", ["aeon", gen.hx(net), gen.hx("EF %q%\n"), "summary", gen.hx("p") + "=u"], tag="cli-missing-ctx")
+    # context archives that cannot be used: a malformed entry; sets written with another number
+    # of spare variable sets -- both must be reported as messages
+    for fs in (["EF %p%"], ["3{x} in %p%: @{x}: AX {x}", "EF %p%"]):
+        for fault in ("!corrupt:", "!otherk:"):
+            add_shell(chk, "CLI", ["aeon", gen.hx(net), gen.hx("\n".join(fs) + "\n"), "summary",
+                                   fault + gen.hx("p") + "=" + ctx_spec(rng)], tag="cli-faulty-ctx")
 
 
 # ------------------------------------------------------------------ C19
